@@ -75,7 +75,7 @@ Proof.
         | eapply ETryLast; solve [eauto]
         | eapply ETryElse; solve [eauto]
         | eapply ETryBodyRet; solve [eauto] ].
-  - inv_res. constructor.
+  - destruct k; inv_res. constructor.
 Qed.
 
 (* ---- fuel monotonicity ---------------------------------------------------------------------------- *)
